@@ -75,6 +75,20 @@ structure DRec where
 deriving Repr, Inhabited
 
 
+/-- what a scripted `Data`/`LMTPData` call returns -/
+inductive DRet
+  | res (r : BRes)
+  | prop                          -- the reader's error if there was one (other than EOF), else nil
+deriving DecidableEq, Repr, Inhabited
+
+structure DataDec where
+  want : Option Nat := none       -- octets to read before returning (`none` = to EOF / error)
+  rsz : Nat := 4096               -- size of the buffer the backend reads with
+  ret : DRet := .res .ok
+  statuses : List (Bytes × BRes) := []   -- SetStatus calls (LMTPSession only), in order
+deriving Repr, Inhabited
+
+
 /-- the server configuration, as far as it is observable -/
 structure Cfg where
   lmtp : Bool := false
